@@ -40,6 +40,7 @@ type bulkRequest struct {
 	Action  string `json:"action"`
 	ReqID   string `json:"req_id"`
 	Payload any    `json:"payload,omitempty"`
+	Indent  bool   `json:"indent,omitempty"`
 }
 type bulkResponse struct {
 	ReqID   string          `json:"req_id"`
@@ -127,6 +128,7 @@ func bulkGenStream(r *rand.Rand, docs [][]byte, signed []byte, pub *dsig.PublicK
 			q = bulkRequest{Action: "bogus", Payload: map[string]any{"x": 1}}
 		}
 		q.ReqID = id
+		q.Indent = r.Intn(3) == 0
 		reqs[i] = q
 	}
 	bad := 0
@@ -251,7 +253,7 @@ func bulkRun(repo, bin string, seed int64, streams int, out string) error {
 			ev := bulkEvent{Kind: "resp", Seq: rs.SeqID, Req: rs.ReqID, Err: hasErr(rs.Error), Action: q.Action, Same: true}
 			if known && bulkComparable[q.Action] {
 				// the same request processed alone (one-request stream), cached
-				qb, _ := json.Marshal(bulkRequest{Action: q.Action, Payload: q.Payload})
+				qb, _ := json.Marshal(bulkRequest{Action: q.Action, Payload: q.Payload, Indent: q.Indent})
 				k := sha(qb)
 				if _, ok := standalone[k]; !ok {
 					alone, err := runBulkProc(bin, append(qb, '\n'), false)
